@@ -6,7 +6,7 @@
     PARTIAL: the round-trip theorem parse(print c) = abs c is proved here for the stream-selector
     sub-grammar with an unbounded number of matchers; for the rest of the grammar it is established by the
     correspondence against generator-computed expectations, not by a theorem (see DESIGN.md). *)
-From LogQLV Require Import Base.Bytes Base.FloatX Model.Tables Model.Syntax Model.Parser Proofs.ParserP Proofs.PredP Proofs.PipelineP Proofs.LogRangeP Proofs.QueryP Proofs.UnwrapP Proofs.VecParamP Proofs.QuantileP Proofs.BinRangeP Proofs.BinModP Model.Lexer Proofs.LexerP Proofs.LexerTightP Proofs.LexParseP Proofs.BinTextP.
+From LogQLV Require Import Base.Bytes Base.FloatX Model.Tables Model.Syntax Model.Parser Proofs.ParserP Proofs.PredP Proofs.PipelineP Proofs.LogRangeP Proofs.QueryP Proofs.UnwrapP Proofs.VecParamP Proofs.QuantileP Proofs.BinRangeP Proofs.BinModP Proofs.BinLitP Model.Lexer Proofs.LexerP Proofs.LexerTightP Proofs.LexParseP Proofs.BinTextP.
 
 (** every selector {l1 op1 "v1", ..., ln opn "vn"} with any number of matchers, all four operators, any value bytes (regex
     values that compile) and any label names -- whether the lexer classifies a name as Ident or as a keyword (by, on, json,
@@ -231,6 +231,53 @@ Example bin_mod_example :
   parse_tokens (print_bin_mod anch rn (fun _ => TIdent) OpDiv m2 a b) = Parsed (EBin (operand_expr a) OpDiv (mod_of m2) (operand_expr b)) /\
   parse_tokens (print_bin_mod anch rn (fun _ => TIdent) OpMul m3 a b) = Parsed (EBin (operand_expr a) OpMul (mod_of m3) (operand_expr b)) /\
   bm_include (mod_of m2) = [["z"%byte]] /\ bm_bool (mod_of m3) = true /\ length (print_mod m2) = 10%nat.
+Proof. repeat split; vm_compute; reflexivity. Qed.
+
+(** ... and between a range aggregation and a NUMBER, on either side:  rate ( .. ) > 0.5,  count_over_time ( .. ) * 100,
+    rate ( .. ) > bool 1,  rate ( .. ) - -5,  100 * rate ( .. ).  The number is one number token ([v] is what strconv.ParseFloat read
+    from its text) with an optional sign token; the tree holds  ELit (copysign v sign).  Arithmetic and comparison operators only:
+    and / or / unless reject a scalar operand ([scalar_logic_rejected]). *)
+Theorem bin_lit_right_parse :
+  forall (anch : bytes -> bool) (re_names : bytes -> option (list bytes)) (cls : bytes -> ttype) (op : binop) (m : msrc) (a : operand)
+         (sign : option bool) (txt : bytes) (v : float),
+  metric_op op = true -> is_logic op = false ->
+  wf_operand anch re_names cls a (plain (bin_tok op) (spelling (bin_tok op)) :: print_mod m ++ print_lit sign txt v) ->
+  parse_tokens (print_bin_lit_r anch re_names cls op m a sign txt v) = Parsed (EBin (operand_expr a) op (mod_of m) (ELit (lit_val sign v))).
+Proof. exact bin_lit_right_parse_lemma. Qed.
+Print Assumptions bin_lit_right_parse.
+
+Theorem bin_lit_left_parse :
+  forall (anch : bytes -> bool) (re_names : bytes -> option (list bytes)) (cls : bytes -> ttype) (op : binop) (m : msrc)
+         (sign : option bool) (txt : bytes) (v : float) (b : operand),
+  metric_op op = true -> is_logic op = false ->
+  wf_operand anch re_names cls b [] ->
+  parse_tokens (print_bin_lit_l anch re_names cls op m sign txt v b) = Parsed (EBin (ELit (lit_val sign v)) op (mod_of m) (operand_expr b)).
+Proof. exact bin_lit_left_parse_lemma. Qed.
+Print Assumptions bin_lit_left_parse.
+
+Theorem scalar_logic_rejected :
+  forall (anch : bytes -> bool) (re_names : bytes -> option (list bytes)) (cls : bytes -> ttype) (op : binop) (m : msrc) (a : operand)
+         (sign : option bool) (txt : bytes) (v : float),
+  metric_op op = true -> is_logic op = true ->
+  wf_operand anch re_names cls a (plain (bin_tok op) (spelling (bin_tok op)) :: print_mod m ++ print_lit sign txt v) ->
+  parse_tokens (print_bin_lit_r anch re_names cls op m a sign txt v) = Rejected.
+Proof. exact scalar_logic_rejected_lemma. Qed.
+Print Assumptions scalar_logic_rejected.
+
+Example bin_lit_example :
+  let anch := fun _ : bytes => true in
+  let rn := fun _ : bytes => Some (@nil bytes) in
+  let sel := [ {| m_label := ["a"%byte]; m_op := OpEq; m_value := ["x"%byte] |} ] in
+  let m5 := ["5"%byte; "m"%byte] in
+  let a := {| a_op := RangeOpRate; a_sel := sel; a_sts := [SLine OpEq ["e"%byte] false]; a_rtxt := m5; a_rns := 300000000000; a_off := None |} in
+  let m0 := {| ms_bool := false; ms_join := None |} in
+  let mb := {| ms_bool := true; ms_join := None |} in
+  let half := ["0"%byte; "."%byte; "5"%byte] in
+  parse_tokens (print_bin_lit_r anch rn (fun _ => TIdent) OpGt mb a None half 0.5%float) = Parsed (EBin (operand_expr a) OpGt (mod_of mb) (ELit 0.5%float)) /\
+  parse_tokens (print_bin_lit_r anch rn (fun _ => TIdent) OpSub m0 a (Some true) half 0.5%float) = Parsed (EBin (operand_expr a) OpSub empty_mod (ELit (-0.5)%float)) /\
+  parse_tokens (print_bin_lit_l anch rn (fun _ => TIdent) OpMul m0 None ["1"%byte; "0"%byte; "0"%byte] 100%float a) = Parsed (EBin (ELit 100%float) OpMul empty_mod (operand_expr a)) /\
+  parse_tokens (print_bin_lit_r anch rn (fun _ => TIdent) OpAnd m0 a None half 0.5%float) = Rejected /\
+  length (print_bin_lit_r anch rn (fun _ => TIdent) OpGt mb a None half 0.5%float) = 16%nat.
 Proof. repeat split; vm_compute; reflexivity. Qed.
 
 (** vector aggregations with the operand directly in parentheses, with or without a leading integer parameter:
